@@ -1032,6 +1032,10 @@ func (g *Gen) bigMergeCase() {
 			}
 			toks = append(toks, TokSpec{Term: []byte("zzz"), Freq: 1})
 			doc.Fields = append(doc.Fields, FieldSpec{Kind: "fld", Name: "body", Typ: 't', Len: 2 + d%4, DV: k == 0, Toks: toks})
+			if d == 400 || d == 470 {
+				// the next field's FIRST term equals this field's LAST term, with few hits
+				doc.Fields = append(doc.Fields, FieldSpec{Kind: "fld", Name: "bodz", Typ: 't', Len: 5, Toks: []TokSpec{{Term: []byte("zzz"), Freq: 2 + d/470}}})
+			}
 			if d%30 == k {
 				// the empty term opens the next field's dictionary
 				doc.Fields = append(doc.Fields, FieldSpec{Kind: "fld", Name: "tag", Typ: 't', Len: 1, DV: true,
@@ -1080,6 +1084,7 @@ func (g *Gen) bigMergeCase() {
 	}
 	g.emit("q dict %s body aut=all lo=* hi=* probe=-", m)
 	g.emit("q dict %s tag aut=all lo=* hi=* probe=.", m)
+	g.emit("q post %s bodz %s ex=nil fl=111 ops=N,N,N,N,N", m, hx([]byte("zzz")))
 	g.emit("q post %s tag . ex=nil fl=111 ops=%s", m, g.nexts(total/30+4))
 	g.emit("q post %s body %s ex=nil fl=100 ops=N,A%d,N,N,A%d,N,N", m, hx([]byte("zzz")), total/2, total-2)
 	g.emit("close %s", m)
@@ -1094,6 +1099,11 @@ func (g *Gen) genMerge(prop string, n int) error {
 		g.emit("note case %d", i)
 		if prop == "C06" && i%107 == 53 {
 			g.bigMergeCase()
+			continue
+		}
+		if prop == "C05" && i%211 == 7 {
+			g.manySurvivorsCase()
+			g.st("case")
 			continue
 		}
 		depth := 1 + g.r.Intn(3)
@@ -1722,4 +1732,42 @@ func (g *Gen) exactChunkCase(nd int) {
 	g.emit("close %s", s)
 	g.emit("rmfile %s", f)
 	g.st("exactchunk")
+}
+
+// manySurvivorsCase: more than 4096 surviving documents (the stored-document index of the merged
+// file is longer than any block it may be written in), by copying and by re-encoding.
+func (g *Gen) manySurvivorsCase() {
+	g.curMode = 1026
+	g.emit("cfg chunkmode=1026")
+	var segs []string
+	for k := 0; k < 2; k++ {
+		b := &BatchSpec{Name: g.fresh("b")}
+		for d := 0; d < 2080+g.r.Intn(40); d++ {
+			id := []byte(fmt.Sprintf("%s-%d", b.Name, d))
+			doc := DocSpec{ID: id, Plain: true}
+			doc.Fields = append(doc.Fields, FieldSpec{Kind: "fld", Name: "_id", Typ: 't', Stored: true, Len: 1, Val: id, Toks: []TokSpec{{Term: id, Freq: 1}}})
+			doc.Fields = append(doc.Fields, FieldSpec{Kind: "fld", Name: "v", Typ: 't', Stored: true, Val: []byte(fmt.Sprintf("value-of-%s", id))})
+			b.Docs = append(b.Docs, doc)
+		}
+		g.emitBatch(b)
+		s := g.fresh("s")
+		g.emit("build %s %s", s, b.Name)
+		g.newBuilt(s, b)
+		segs = append(segs, s)
+	}
+	for _, drops := range []string{"nil|nil", "5,7|nil"} {
+		f := g.fresh("f")
+		g.emit("merge %s segs=%s drops=%s", f, strList(segs), drops)
+		g.emit("footer %s", f)
+		m := g.fresh("m")
+		g.emit("open %s %s", m, f)
+		g.emit("q count %s", m)
+		total := g.ndocs[segs[0]] + g.ndocs[segs[1]] - dropCount(strings.Split(drops, "|")[0])
+		for _, d := range []int{0, 1, 2078, 4095, 4096, 4097, 4100 + g.r.Intn(50), total - 1, total} {
+			g.emit("q stored %s %d stop=*", m, d)
+			g.emit("q docid %s %d", m, d)
+		}
+		g.emit("close %s", m)
+	}
+	g.st("manysurvivors")
 }
